@@ -381,7 +381,7 @@ Val binop(State &S, unsigned op, const Val &a, const Val &b, unsigned w, const D
     r = mks(x * y, w); break;
   case Instruction::UDiv: case Instruction::URem:
     if (!b.sym() && b.c > 1 && a.sym()) {
-      // division by a constant: x = q*c + r, r < c, q <= max/c characterises q and r exactly and
+      // division by a constant: x = q*c + r, r < c, q <= max/c, x >= r characterises q and r exactly and
       // bit-blasts to a constant multiplier instead of a divider circuit
       static u64 fresh = 0;
       auto key = std::make_pair(a.e->id(), b.c);
@@ -389,10 +389,10 @@ Val binop(State &S, unsigned op, const Val &a, const Val &b, unsigned w, const D
       if (it == S.divcache.end()) {
         z3::expr q = Z.bv_const(("q!" + std::to_string(fresh)).c_str(), w), rr = Z.bv_const(("r!" + std::to_string(fresh)).c_str(), w); fresh++;
         z3::expr cst = Z.bv_val((uint64_t)b.c, w);
-        addpc(S, x == q * cst + rr && z3::ult(rr, cst) && z3::ule(q, Z.bv_val((uint64_t)(maskw(w) / b.c), w)));
-        it = S.divcache.emplace(key, std::make_pair(q, rr)).first;
+        addpc(S, x == q * cst + rr && z3::ult(rr, cst) && z3::ule(q, Z.bv_val((uint64_t)(maskw(w) / b.c), w)) && z3::uge(x, rr));   // neither the product nor the sum wraps
+        it = S.divcache.emplace(key, std::vector<z3::expr>{q, rr, x}).first;   // x is kept alive so that its id cannot be reused
       }
-      r = mks(op == Instruction::UDiv ? it->second.first : it->second.second, w); break;
+      r = mks(op == Instruction::UDiv ? it->second[0] : it->second[1], w); break;
     }
     sym_ub(S, y == Z.bv_val(0, w), "DIV-BY-ZERO", op == Instruction::UDiv ? "symbolic udiv" : "symbolic urem");
     r = mks(op == Instruction::UDiv ? z3::udiv(x, y) : z3::urem(x, y), w); break;
